@@ -478,7 +478,7 @@ class OscScore():
     def duration(self):
         if self._scoreq.empty():
             return None  # Uninitialized.
-        return self._scoreq.peek(False)[0] * clk.SystemClock._OSC_TO_SECONDS
+        return self._scoreq.peek(False)[0]  # Entries are keyed by seconds.
 
     def add(self, bndl):
         if self._finished:
